@@ -52,3 +52,85 @@ package controllerstate
 //@     invariant [scanned] !isOutputType(adapter, resourceType) && (forall j int :: 0 <= j && j <= rangeindex ==>
 //@       !(adapter.Inputs[j].Namespace == resourceNamespace && adapter.Inputs[j].Type == resourceType &&
 //@         (!adapter.Inputs[j].ID.present || (resourceID.present && adapter.Inputs[j].ID.value == resourceID.value))))
+
+// Delegating methods: the assertion at each delegated call is the access predicate of the target;
+// the postcondition says that a target outside the predicate gets an error and no delegated call.
+
+//@ pred canRead(a *StateAdapter, p resource.Pointer) := isOutputType(a, typeOf(p)) || canReadInput(a, nsOf(p), typeOf(p), true, idOf(p))
+//@ pred canList(a *StateAdapter, k resource.Kind) := isOutputType(a, typeOf(k)) || canReadInput(a, nsOf(k), typeOf(k), false, "")
+//@
+//@ func (*StateAdapter).get
+//@   props C08
+//@   requires adapter != nil && adapter.Cache != nil && adapter.OwnedState != nil && adapter.Logger != nil && resourcePointer != nil
+//@   at Cache).Get #1
+//@     assert [cached-get-confined] canRead(adapter, resourcePointer)
+//@   at State).Get #1
+//@     assert [get-confined] canRead(adapter, resourcePointer)
+//@   ensures [rejected-no-delegation] !canRead(adapter, resourcePointer) ==> result1 != nil && delegated == old(delegated)
+//@
+//@ func (*StateAdapter).list
+//@   props C08
+//@   requires adapter != nil && adapter.Cache != nil && adapter.OwnedState != nil && adapter.Logger != nil && resourceKind != nil
+//@   at Cache).List #1
+//@     assert [cached-list-confined] canList(adapter, resourceKind)
+//@   at State).List #1
+//@     assert [list-confined] canList(adapter, resourceKind)
+//@   ensures [rejected-no-delegation] !canList(adapter, resourceKind) ==> result1 != nil && delegated == old(delegated)
+//@
+//@ func (*StateAdapter).ContextWithTeardown
+//@   props C08
+//@   requires adapter != nil && adapter.Cache != nil && adapter.OwnedState != nil && adapter.Logger != nil && resourcePointer != nil
+//@   at Cache).ContextWithTeardown #1
+//@     assert [cached-teardown-ctx-confined] canRead(adapter, resourcePointer)
+//@   at State).ContextWithTeardown #1
+//@     assert [teardown-ctx-confined] canRead(adapter, resourcePointer)
+//@   ensures [rejected-no-delegation] !canRead(adapter, resourcePointer) ==> result1 != nil && delegated == old(delegated)
+//@
+//@ func (*StateAdapter).Create
+//@   props C08
+//@   requires adapter != nil && adapter.UpdateLimiter != nil && adapter.OwnedState != nil && r != nil
+//@   at State).Create #1
+//@     assert [create-confined] isOutputType(adapter, mdOf(r).typ)
+//@   ensures [rejected-no-delegation] !isOutputType(adapter, old(mdOf(r).typ)) ==> result != nil && delegated == old(delegated)
+//@
+//@ func (*StateAdapter).Update
+//@   props C08
+//@   requires adapter != nil && adapter.UpdateLimiter != nil && adapter.OwnedState != nil && newResource != nil
+//@   at State).Update #1
+//@     assert [update-confined] isOutputType(adapter, mdOf(newResource).typ)
+//@   ensures [rejected-no-delegation] !isOutputType(adapter, old(mdOf(newResource).typ)) ==> result != nil && delegated == old(delegated)
+//@
+//@ func (*StateAdapter).modify
+//@   props C08
+//@   requires adapter != nil && adapter.UpdateLimiter != nil && adapter.OwnedState != nil && emptyResource != nil
+//@   at State).ModifyWithResult #1
+//@     assert [modify-confined] isOutputType(adapter, mdOf(emptyResource).typ)
+//@   ensures [rejected-no-delegation] !isOutputType(adapter, old(mdOf(emptyResource).typ)) ==> result1 != nil && delegated == old(delegated)
+//@
+//@ func (*StateAdapter).AddFinalizer
+//@   props C08
+//@   requires adapter != nil && adapter.UpdateLimiter != nil && adapter.OwnedState != nil && resourcePointer != nil
+//@   at State).AddFinalizer #1
+//@     assert [add-finalizer-confined] canFinalize(adapter, nsOf(resourcePointer), typeOf(resourcePointer), idOf(resourcePointer))
+//@   ensures [rejected-no-delegation] !canFinalize(adapter, nsOf(resourcePointer), typeOf(resourcePointer), idOf(resourcePointer)) ==> result != nil && delegated == old(delegated)
+//@
+//@ func (*StateAdapter).RemoveFinalizer
+//@   props C08
+//@   requires adapter != nil && adapter.UpdateLimiter != nil && adapter.OwnedState != nil && resourcePointer != nil
+//@   at State).RemoveFinalizer #1
+//@     assert [remove-finalizer-confined] canFinalize(adapter, nsOf(resourcePointer), typeOf(resourcePointer), idOf(resourcePointer))
+//@   ensures [rejected-no-delegation] !canFinalize(adapter, nsOf(resourcePointer), typeOf(resourcePointer), idOf(resourcePointer)) ==> result != nil && delegated == old(delegated)
+//@
+//@ func (*StateAdapter).Teardown
+//@   props C08
+//@   requires adapter != nil && adapter.UpdateLimiter != nil && adapter.OwnedState != nil && resourcePointer != nil
+//@   at State).Teardown #1
+//@     assert [teardown-confined] isOutputType(adapter, typeOf(resourcePointer))
+//@   ensures [rejected-no-delegation] !isOutputType(adapter, typeOf(resourcePointer)) ==> result1 != nil && delegated == old(delegated)
+//@
+//@ func (*StateAdapter).Destroy
+//@   props C08
+//@   requires adapter != nil && adapter.UpdateLimiter != nil && adapter.OwnedState != nil && resourcePointer != nil
+//@   at State).Destroy #1
+//@     assert [destroy-confined] isOutputType(adapter, typeOf(resourcePointer))
+//@   ensures [rejected-no-delegation] !isOutputType(adapter, typeOf(resourcePointer)) ==> result != nil && delegated == old(delegated)
